@@ -1,8 +1,75 @@
-(* C19 - Automation output in range; MIDI-learn served in order. *)
+(* C19 - Automation output in range; MIDI-learn served in order.
+   Only the property theorems, each closed by [exact]; proofs live in
+   Auto/AutoProofs.v (learn queue, pure integers), Auto/AutoMapProofs.v (value
+   mapping, IEEE-754 via Flocq) and Auto/AutoRegress.v (D17/D18 witnesses); the
+   models in Auto/AutoModel.v, Auto/AutoMapModel.v, Auto/F32.v.
+
+   [q_run ops (q_init n r) = Some (s, dss)]: s is the learn bookkeeping after the
+   history ops of createBinding / clearSlot / handleMidi on n slots, for ANY
+   list ops and ANY initial NRPN registers r (the constructor leaves them
+   uninitialised); dss are the slots driven by each operation.  None = a
+   createBinding outside the slot array (no range check in the code). *)
 From Coq Require Import List ZArith.
-From RtoscV Require Import Auto.AutoModel Auto.AutoProofs.
+From RtoscV Require Import Auto.AutoModel Auto.AutoProofs Auto.AutoRegress.
 Import ListNotations.
 Local Open Scope Z_scope.
 
-Theorem C19_upd_nth_length : forall (A : Type) i (f : A -> A) l, length (upd_nth i f l) = length l.
-Proof. exact upd_nth_length. Qed.
+(* pending slots carry exactly 1..k, k = learn_queue_len *)
+Theorem C19_queue_inv : forall ops n r s dss,
+  q_run ops (q_init n r) = Some (s, dss) -> queue_inv s.
+Proof. exact run_queue_inv. Qed.
+
+(* slots that asked for MIDI learn are bound, one per previously unbound
+   controller, in the order in which they asked, regardless of creates and
+   clears in between: the model's history is a history of the FIFO queue
+   machine [s_step] (append on request, remove on clear, pop the head on an
+   unbound controller) with the same driven slots, and the per-slot integers
+   are the positions in that queue *)
+Theorem C19_learn_fifo : forall ops n r s dss,
+  q_run ops (q_init n r) = Some (s, dss) ->
+  exists a, s_run ops (s_init n r) = Some (a, dss) /\ abs s a.
+Proof. exact learn_fifo. Qed.
+
+(* no two slots are ever bound to the same controller *)
+Theorem C19_bindings_unique : forall ops n r s dss,
+  q_run ops (q_init n r) = Some (s, dss) -> uniq s.
+Proof. exact run_uniq. Qed.
+
+(* once bound a controller drives exactly its slot *)
+Theorem C19_bound_drives_own : forall s i qi chan ty val,
+  uniq s -> nth_error (qslots s) i = Some qi ->
+  is_nrpn_type ty = false -> cc qi = chan * 128 + ty -> cc qi <> -1 ->
+  q_midi chan ty val s = (s, [Drive i val 127], 1).
+Proof. exact bound_cc_drives_own. Qed.
+
+Theorem C19_bound_nrpn_drives_own : forall s i qi chan ty val,
+  uniq s -> nth_error (qslots s) i = Some qi ->
+  is_nrpn_type ty = true ->
+  let r := setparameternumber ty val (nregs s) in
+  nrpn_complete r = true -> nrpn qi = parhi r * 128 + parlo r -> nrpn qi <> -1 ->
+  q_midi chan ty val s =
+  (mkQS (qslots s) (qlen s) r, [Drive i (valhi r * 128 + vallo r) 16383], 1).
+Proof. exact bound_nrpn_drives_own. Qed.
+
+(* D17 regression: clearSlot as it was, on "slot 1 waits, clear slot 0" *)
+Theorem C19_queue_inv_regress :
+  let s := q_clear_old 0 one_waiting in
+  map learning (qslots s) = [-1; 0; -1] /\ qlen s = 0 /\
+  q_midi 0 20 64 s = (s, [], 0) /\
+  map learning (qslots (q_clear 0 one_waiting)) = [-1; 1; -1] /\
+  snd (fst (q_midi 0 20 64 (q_clear 0 one_waiting))) = [Drive 1 64 127].
+Proof. exact d17_refuted. Qed.
+
+(* D18 regression: handleMidi as it was, on "slots 0 and 1 wait, NRPN 99 98 6 38" *)
+Theorem C19_learn_fifo_regress :
+  let '(s1, _, _) := q_midi_old 0 99 1 two_waiting in
+  let '(s2, _, _) := q_midi_old 0 98 2 s1 in
+  map (fun q => (learning q, cc q, nrpn q)) (qslots s2) = [(-1, 0, -1); (-1, 0, -1); (-1, -1, -1)] /\
+  let '(t1, _, _) := q_midi 0 99 1 two_waiting in
+  let '(t2, _, _) := q_midi 0 98 2 t1 in
+  let '(t3, _, _) := q_midi 0 6 3 t2 in
+  let '(t4, ds, _) := q_midi 0 38 4 t3 in
+  map (fun q => (learning q, cc q, nrpn q)) (qslots t2) = [(1, -1, -1); (2, -1, -1); (-1, -1, -1)] /\
+  map (fun q => (learning q, cc q, nrpn q)) (qslots t4) = [(-1, -1, 130); (1, -1, -1); (-1, -1, -1)] /\
+  ds = [Drive 0 4 127].
+Proof. exact d18_refuted. Qed.
